@@ -160,7 +160,7 @@ Step ==
             LET before == IF e.g \in DOMAIN atCall THEN atCall[e.g] ELSE {}
                 alive == (before \cap gor) \ (IF crG = e.g THEN {"cr"} ELSE {})
             IN IF alive # {} THEN Fail("library-goroutine-alive-when-close-returned")
-               ELSE IF ~cPost THEN Fail("close-returned-with-connection-open")
+               ELSE IF ~cPre THEN Fail("close-returned-with-connection-open")   \* R3: the flag flips between ClosedPre and ClosedPost
                ELSE Same(state) /\ UNCHANGED <<bad, skip>>
        [] e.ev = "WgTimeout" -> Fail("close-needed-the-15s-goroutine-backstop")
        \* ---------------- goroutines ----------------
